@@ -54,11 +54,16 @@ def call_is_pure(call, spec_names=()):
     return False
 
 
+IMPURE_PROPS = set()   # property names whose getters run code (set from the registry): reads are hoisted like calls
+
+
 def has_impure_call(node, spec_names=()):
     for n in ast.walk(node):
         if isinstance(n, ast.Lambda):
             continue
         if isinstance(n, ast.Call) and not call_is_pure(n, spec_names):
+            return True
+        if isinstance(n, ast.Attribute) and isinstance(n.ctx, ast.Load) and n.attr in IMPURE_PROPS:
             return True
     return False
 
@@ -125,6 +130,15 @@ class Desugarer:
             ast.copy_location(asg, expr)
             pre.append(asg)
             self.log.append(f"hoist call at line {expr.lineno} -> {t}")
+            return ast.copy_location(ast.Name(id=t, ctx=ast.Load()), expr)
+        if isinstance(expr, ast.Attribute) and isinstance(expr.ctx, ast.Load) and expr.attr in IMPURE_PROPS:
+            new = copy.copy(expr)
+            new.value = self.hoist(expr.value, pre)
+            if top_call_ok:
+                return new
+            t = self.tmp()
+            pre.append(self._assign(t, new, expr))
+            self.log.append(f"hoist property read .{expr.attr} at line {expr.lineno} -> {t}")
             return ast.copy_location(ast.Name(id=t, ctx=ast.Load()), expr)
         if isinstance(expr, ast.BoolOp):
             # a or f()  ->  t = a; if not t: t = f()
